@@ -57,6 +57,11 @@ pub fn set_passive(on: bool) {
 pub fn passive() -> bool {
     PASSIVE.load(std::sync::atomic::Ordering::Relaxed)
 }
+static NO_AS_LIMIT: std::sync::atomic::AtomicBool = std::sync::atomic::AtomicBool::new(false);
+/// AddressSanitizer needs a huge virtual address space: children must not get an RLIMIT_AS there
+pub fn set_no_as_limit(on: bool) {
+    NO_AS_LIMIT.store(on, std::sync::atomic::Ordering::Relaxed);
+}
 fn set_trap(on: bool) {
     rrss::verif::set_trap(on && !passive());
 }
@@ -696,8 +701,10 @@ pub fn run_in_child(as_limit: u64, cpu_secs: u64, f: impl FnOnce(&mut PipeWriter
         unsafe {
             close(fds[0]);
             dup2(fds[1], 2);
-            let l = RLimit { cur: as_limit, max: as_limit };
-            setrlimit(RLIMIT_AS, &l);
+            if !NO_AS_LIMIT.load(std::sync::atomic::Ordering::Relaxed) {
+                let l = RLimit { cur: as_limit, max: as_limit };
+                setrlimit(RLIMIT_AS, &l);
+            }
             let c = RLimit { cur: cpu_secs, max: cpu_secs + 1 };
             setrlimit(RLIMIT_CPU, &c);
             let z = RLimit { cur: 0, max: 0 };
